@@ -75,41 +75,53 @@ static inline unsigned long long round_up_to_power_of_two(unsigned long long i)
 /******************************************************************************/
 // round_down_to_power_of_two()
 
+template <typename Integral>
+static inline Integral round_down_to_power_of_two_template(Integral n)
+{
+    // smear the highest set bit downwards, then keep only that bit. this does
+    // not overflow for values above the largest representable power of two.
+    for (size_t k = 1; k != 8 * sizeof(n); k <<= 1)
+    {
+        n |= n >> k;
+    }
+    return n - (n >> 1);
+}
+
 //! does what it says: round down to next power of two
 static inline int round_down_to_power_of_two(int i)
 {
-    return round_up_to_power_of_two(i + 1) >> 1;
+    return round_down_to_power_of_two_template(i);
 }
 
 //! does what it says: round down to next power of two
 static inline unsigned int round_down_to_power_of_two(unsigned int i)
 {
-    return round_up_to_power_of_two(i + 1) >> 1;
+    return round_down_to_power_of_two_template(i);
 }
 
 //! does what it says: round down to next power of two
 static inline long round_down_to_power_of_two(long i)
 {
-    return round_up_to_power_of_two(i + 1) >> 1;
+    return round_down_to_power_of_two_template(i);
 }
 
 //! does what it says: round down to next power of two
 static inline unsigned long round_down_to_power_of_two(unsigned long i)
 {
-    return round_up_to_power_of_two(i + 1) >> 1;
+    return round_down_to_power_of_two_template(i);
 }
 
 //! does what it says: round down to next power of two
 static inline long long round_down_to_power_of_two(long long i)
 {
-    return round_up_to_power_of_two(i + 1) >> 1;
+    return round_down_to_power_of_two_template(i);
 }
 
 //! does what it says: round down to next power of two
 static inline unsigned long long round_down_to_power_of_two(
     unsigned long long i)
 {
-    return round_up_to_power_of_two(i + 1) >> 1;
+    return round_down_to_power_of_two_template(i);
 }
 
 //! \}
